@@ -183,6 +183,15 @@ class Ref:
         self.env, self.key = env, key
 
 
+class Ptr(Ref):
+    """pointer value &x: unlike a reference binding it is not looked through when the variable holding it is read"""
+    __slots__ = ('t',)
+
+    def __init__(self, env, key, t=None):
+        Ref.__init__(self, env, key)
+        self.t = t
+
+
 class _Break(Exception):
     pass
 
@@ -436,7 +445,20 @@ class PEval:
                     return Lit(raw_)
                 if isinstance(v, (Arr, Str, Rec)):
                     return v
-        return self.ev(n, env, depth)
+        pv = self.ev(n, env, depth)
+        if isinstance(pv, Ptr):
+            # a pointer value that travelled through a parameter or a local: the bytes of the object it designates
+            v = self.lookup(pv.env, pv.key)
+            ei = self.elem_info(pv.t)
+            if ei and isinstance(v, int):
+                return ('scalar', v, ei[0], ei[1])
+            if isinstance(v, float) and (pv.t or '').replace('const ', '') in ('float', 'double'):
+                import struct as _st
+                return Lit(_st.pack('<f' if 'float' in pv.t else '<d', v))
+            if isinstance(v, (Arr, Str, Rec)):
+                return v
+            raise Undecided('bytes of the object a pointer designates')
+        return pv
 
     def store_bytes(self, dst_n, data, env, depth):
         """memcpy-style store of `data` at the address dst_n designates"""
@@ -579,7 +601,7 @@ class PEval:
         while e is not None:
             if key in e:
                 v = e[key]
-                if isinstance(v, Ref):
+                if type(v) is Ref:
                     return self.lookup(v.env, v.key)
                 return v
             e = e.get('__parent__')
@@ -589,7 +611,7 @@ class PEval:
         e = env
         while e is not None:
             if key in e:
-                if isinstance(e[key], Ref):
+                if type(e[key]) is Ref:
                     return self.store(e[key].env, e[key].key, val)
                 e[key] = val
                 return
@@ -742,7 +764,7 @@ class PEval:
                         return Lit(base.data, base.off + idx)
                 rd = ref_decl(s0)
                 if rd is not None:
-                    return Ref(env, rd['id'])
+                    return Ptr(env, rd['id'], dtype(s0))
                 raise Undecided('address-of')
             v = self.ev(sub, env, depth)
             if op == '!':
@@ -1847,7 +1869,9 @@ class PEval:
                 if vals[1] > len(vals[0].b):
                     raise Fault('append of %d bytes from a %d-byte array' % (vals[1], len(vals[0].b)))
                 s.b += bytes(vals[0].b[:vals[1]])
-            elif len(vals) == 2 and isinstance(vals[0], int) and isinstance(vals[1], int):
+            elif len(vals) == 2 and isinstance(vals[0], int) and isinstance(vals[1], int) and '*' not in (qtype(strip(args[0])) or ''):
+                if vals[0] > (1 << 24):
+                    raise Undecided('append of %d characters' % vals[0])
                 s.b += bytes([vals[1] & 0xFF]) * vals[0]
             else:
                 raise Undecided('append form')
